@@ -15,11 +15,11 @@ export GOCACHE="${VERIF_GOCACHE:-$HERE/.cache/go-build}"
 mkdir -p "$GOCACHE" "$HERE/.cache"
 
 # which checks need the overlay (instrumented) binary
-SCHED_CHECKS=" C06 C07 C08 "
+SCHED_CHECKS=" C06 C08 "
 
 # checks with two parts: a schedule-exploring part (overlay binary) whose coverage is merged into the
 # API-level part (plain binary), which writes the evidence and decides the exit code
-HYBRID_CHECKS=" C04 C11 C19 "
+HYBRID_CHECKS=" C04 C07 C11 C19 "
 
 # scratch root: tmpfs if there is one, never something a registered command depends on
 mkscratch() {
